@@ -58,6 +58,6 @@ Segs == {<<>>, <<"a">>, <<"b">>, <<"1">>, <<"a", "%", "2", "F", "b">>}
 ProbePaths == {<<"/">>} \cup {<<"/">> \o s : s \in Segs \ {<<>>}} \cup {<<"/">> \o s1 \o <<"/">> \o s2 : s1 \in Segs \ {<<>>}, s2 \in Segs}
               \cup {<<"/">> \o s1 \o <<"/">> \o s2 \o <<"/">> \o s3 : s1 \in {<<"a">>, <<"1">>}, s2 \in {<<"b">>, <<"1">>}, s3 \in {<<"b">>, <<"a">>, <<>>}}
 Sane == \A p \in ProbePaths, m \in {"GET", "POST"}, hx \in BOOLEAN :
-          LET w == Walk(Concrete(tb).children, p, m, hx, <<>>, 1, tb.dflt, tb.dflt, FALSE) IN w.status \in {200, 404, 405}
+          LET w == Walk(Concrete(tb).children, p, m, hx, <<>>, 1, tb.dflt, tb.dflt, FALSE, 0) IN w.status \in {200, 404, 405}
 EmitCase == PrintT(<<"CASE", ToJson([table |-> Concrete(tb)])>>)
 =======================================================================================
